@@ -68,6 +68,7 @@ def case_strategy():
 def check(case) -> core.Out:
     items, opts = case["items"], dict(case["opts"])
     source = opts.pop("source", "bytesio")
+    S.close_sources()
     data = streams.stream_bytes(items)
     frames = [i for i in items if i["p"] != "noise"]
     protos = [i["p"] for i in frames]
